@@ -140,9 +140,16 @@ def compile_and_run(nodes, sf, pers, rnd=None, mutate=None):
         symbols = mutate(symbols)
     values = refinterp.run(symbols)
     functors = [v for ins, v in values.items() if isinstance(ins, flow.Functor)]
-    return {'nodes': nodes, 'sf': sf, 'pers': pers, 'values': [norm(v) for v in functors],
-            'commits': [[norm(gen.dumped[s]) for s in c] for c in gen.commits], 'loads': gen.loads,
-            'symbols': len(symbols)}, symbols
+    obs = {'nodes': nodes, 'sf': sf, 'pers': pers, 'values': [norm(v) for v in functors],
+           'commits': [[norm(gen.dumped[s]) for s in c] for c in gen.commits], 'loads': list(gen.loads),
+           'symbols': len(symbols)}
+    # the table is a value: executing it once more (a runner may be handed a precompiled table any number of times)
+    # is again the direct evaluation of the task graph
+    first = len(gen.commits)
+    again = refinterp.run(symbols)
+    obs['values2'] = [norm(v) for ins, v in again.items() if isinstance(ins, flow.Functor)]
+    obs['commits2'] = [[norm(gen.dumped[s]) for s in c] for c in gen.commits[first:]]
+    return obs, symbols
 
 
 class FileRelease:
